@@ -50,7 +50,7 @@ def configs(tier):
 
     def add(**k):
         k.setdefault('group', 'step')
-        k['_cost'] = _cost(k)
+        k.setdefault('_cost', _cost(k))
         if k not in cfgs:
             cfgs.append(k)
     # main sweep: sizes x mode x imputer
@@ -77,6 +77,7 @@ def configs(tier):
     for mode in ('static', 'dynamic'):
         add(d=2, q=2, m=2, mode=mode, imputer='joint', storage='batch', labels=2)
         add(d=2, q=1, m=2, mode=mode, imputer='joint', storage='batch', bigger=True)
+        add(d=2, q=2, m=2, mode=mode, imputer='joint', storage='batch', labels=2, varlabels=True, _cost=4000)
         add(d=2, q=1, m=2, mode=mode, imputer='joint', storage='batch', upd=False)
         add(d=2, q=1, m=2, mode=mode, imputer='product', storage='batch', q_call=2)
     # base case: fresh explainer, T explicit calls
